@@ -448,7 +448,13 @@ Proof.
   - pose proof (pm_dedup_incl pins nm 1 20 1 seen e) as HI.
     destruct (pm_dedup nm 1 20 1 pins seen) as [t s']. cbn [fst] in *. apply in_app_or in H as [H|H]; apply in_or_app;
       [left; exact (HI H)|right; exact H].
-  - destruct pins as [|p r]; [destruct H|]. destruct (pm_dedup_incl [p] nm 2 30 0 seen e H) as [<-|[]]. left. reflexivity.
+  - destruct pins as [|p r]; [destruct H|].
+    pose proof (pm_dedup_incl [p] nm 2 30 0 seen e) as HI.
+    destruct (pm_dedup nm 2 30 0 [p] seen) as [t s']. destruct (kmem (nm, 0, 70) s'); cbn [fst] in *.
+    + destruct (HI H) as [<-|[]]. left. reflexivity.
+    + apply in_app_or in H as [H|H].
+      * destruct (HI H) as [<-|[]]. left. reflexivity.
+      * destruct H as [<-|[]]. right. left. reflexivity.
   - exact (pm_dedup_incl _ _ _ _ _ _ _ H).
   - destruct pins as [|t0 [|e0 r]]; try (destruct H; fail).
     pose proof (pm_dedup_incl [t0] nm 1 60 0 seen e) as HA.
@@ -1320,7 +1326,7 @@ Proof.
   intros [k nm pins h] c. unfold hoist_loop. cbn [d_kind d_pins d_name].
   destruct k; try reflexivity; try (apply cbu_cfg_only, pm_cfg_only); try apply wr_after_pm.
   - destruct pins as [|p r]; [reflexivity|]. cbn. unfold has_cfg. cbn. rewrite Z.eqb_refl. reflexivity.
-  - destruct pins as [|p r]; reflexivity.
+  - destruct pins as [|p r]; [reflexivity|]. cbn. unfold has_cfg. cbn. rewrite Z.eqb_refl. reflexivity.
   - destruct pins as [|t [|e r]]; reflexivity.
 Qed.
 
